@@ -28,6 +28,8 @@ SEEDS = [
     ('condition', 'forall k in [0 to n]: (xs[@k] > y and p)'),
     ('condition', 'not (a = b or c implies d)'),
     ('expression', 'x + y * (z - 1)'),
+    ('condition', 'xs[@A.i + 1] > ys[j] and zs[k] = w'),
+    ('predicate', '{ q in {a, b[c], @A.d} and len(e) > f }'),
     ('condition', 'max({x, y, 3, 4}) < len(ws) + @A.n'),
     ('property', 'after t as A {a > 1}: (u {b = @A.a} or w) causes z {c = d} within 100 ms'),
     ('property', 'after (p as P or q): no (b1 {x = y} or b2 {y > 0}) within 1 s'),
